@@ -238,12 +238,18 @@ func (r *Runner) Exec(o Op) (out Out) {
 	case "filter":
 		calls := 0
 		seen := [][]KV{}
-		res := df.Filter(func(row map[string]any) bool {
+		pred := func(row map[string]any) bool {
 			seen = append(seen, rowToKVs(row))
 			k := calls
 			calls++
 			return k < len(o.Keep) && o.Keep[k]
-		})
+		}
+		var res *dataframe.DataFrame
+		if o.Alt {
+			res = df.BooleanIndex(pred)
+		} else {
+			res = df.Filter(pred)
+		}
 		r.pool = append(r.pool, res)
 		f := Snapshot(res)
 		return Out{Status: "ok", Val: &Val{K: "filter", Frame: &f, Seen: seen}}
@@ -340,6 +346,8 @@ func (r *Runner) Exec(o Op) (out Out) {
 			return Out{Status: "err", Msg: "Apply returned a non-frame"}
 		}
 		return derive(rdf, nil)
+	case "string", "select", "colat", "series", "plot", "groupbyother":
+		return r.execView(o, df)
 	case "describe":
 		return derive(df.Describe())
 	case "resample":
@@ -608,6 +616,7 @@ func RunHist(tag string, frames []Frame, ops []Op) Hist {
 	h := Hist{Tag: tag, Steps: []StepObs{}}
 	h.Pool, _ = r.snapshot()
 	for _, o := range ops {
+		r.Prep(&o)
 		out := r.Exec(o)
 		pool, nrows := r.snapshot()
 		h.Steps = append(h.Steps, StepObs{Op: o, Out: out, Pool: pool, Nrows: nrows})
